@@ -583,4 +583,5 @@ RULES = [
 	('18.z', 'named protocol / policy constants in this property\'s files have their reviewed values (rules/provenance.py)', lambda F: provenance.consts_for_property(F, 'C18', '18.z')),
 	('18.x', 'range indexing of fixed-size buffers stays in bounds wherever the end is statically bounded (a wire length byte can be 255; rules/provenance.py)', lambda F: provenance.arrays_for_property(F, 'C18', '18.x')),
 	('18.s', 'no reviewed function gained a short-circuiting iterator adaptor (find / find_map / take / position ...: an every-element walk that stops at the first match; rules/provenance.py)', lambda F: provenance.sc_for_property(F, 'C18', '18.s')),
+	('18.y', 'no reviewed function gained a swallowed error (the Result of a fallible in-crate call dropped; rules/provenance.py)', lambda F: provenance.dr_for_property(F, 'C18', '18.y')),
 ]
